@@ -41,14 +41,21 @@ impl ConvertibleIn<DimNameState> for DimVar {
         let shared = extra.shared;
         shared_illegal_in_sub_function(ctx, shared, extra.pos)?;
         let (bare_name, var_type) = self.into();
+        // REDIM inside a subprogram of an array that is SHARED at module level
+        // re-dimensions that array; it does not create a local one
+        let redim_of_shared_in_parent = extra.dim_context == DimContext::Redim
+            && ctx.is_in_subprogram()
+            && ctx.names.is_only_shared_in_parent(&bare_name);
         let (var_type, redim_info) = if extra.dim_context == DimContext::Redim {
             on_redim_type(var_type, &bare_name, ctx, extra)?
         } else {
             let var_type = on_dim_type(var_type, &bare_name, ctx, extra)?;
             (var_type, None)
         };
-        ctx.names
-            .insert(bare_name.clone(), &var_type, shared, redim_info);
+        if !redim_of_shared_in_parent {
+            ctx.names
+                .insert(bare_name.clone(), &var_type, shared, redim_info);
+        }
         Ok(Self::new(bare_name, var_type))
     }
 }
